@@ -73,6 +73,82 @@ def returned_battery(tier):
     add({"op": "create_loop", "cont": "hb", "category": "", "names": ["_s1"], "h": "l3"}, "cif_container_create_loop, reserved category")
     add({"op": "get_item_loop", "cont": "hb", "name": "_nope", "h": "l4"}, "cif_container_get_item_loop, no such item")
     add({"op": "get_category_loop", "cont": "hb", "category": "nope", "h": "l5"}, "cif_container_get_category_loop, no such loop")
+    # loops, packet iterators, packets, values, writing, string utilities: the calls that are refused, and the iterator's
+    # own statuses (CIF_FINISHED, CIF_MISUSE, CIF_EMPTY_LOOP, CIF_INVALID_HANDLE, CIF_WRONG_LOOP ...)
+    one = {"k": "numb", "t": "1"}
+    import struct
+    hx = lambda d: "%016x" % struct.unpack("<Q", struct.pack("<d", d))[0]
+    add({"op": "get_item_loop", "cont": "hb", "name": "_x", "h": "lx"}, None)
+    add({"op": "get_item_loop", "cont": "hb", "name": "_a", "h": "ls"}, None)
+    add({"op": "loop_add_packet", "loop": "lx", "packet": [["_nope", one]]}, "cif_loop_add_packet, item of no loop")
+    add({"op": "loop_add_packet", "loop": "lx", "packet": [["_x", one], ["_a", one]]}, "cif_loop_add_packet, item of another loop")
+    add({"op": "loop_add_packet", "loop": "lx", "packet": []}, "cif_loop_add_packet, empty packet")
+    add({"op": "loop_add_packet", "loop": "ls", "packet": [["_a", one]]}, "cif_loop_add_packet, second packet for the scalar loop")
+    add({"op": "loop_add_item", "loop": "lx", "name": "_y", "v": one}, "cif_loop_add_item, duplicate item")
+    add({"op": "loop_add_item", "loop": "lx", "name": "bad name", "v": one}, "cif_loop_add_item, invalid name")
+    add({"op": "loop_set_category", "loop": "lx", "category": ""}, "cif_loop_set_category, reserved category")
+    add({"op": "loop_set_category", "loop": "ls", "category": "k"}, "cif_loop_set_category on the scalar loop")
+    add({"op": "get_packets", "loop": "lx", "itr": "i1"}, None)
+    add({"op": "itr_update", "itr": "i1", "packet": [["_x", one]]}, "cif_pktitr_update_packet before any packet")
+    add({"op": "itr_remove", "itr": "i1"}, "cif_pktitr_remove_packet before any packet")
+    add({"op": "itr_next", "itr": "i1"}, None)
+    add({"op": "itr_update", "itr": "i1", "packet": [["_a", one]]}, "cif_pktitr_update_packet, item of another loop")
+    add({"op": "itr_update", "itr": "i1", "packet": [["_nope", one]]}, "cif_pktitr_update_packet, item of no loop")
+    add({"op": "get_packets", "loop": "lx", "itr": "i2"}, "cif_loop_get_packets while another iterator is open")
+    add({"op": "set_value", "cont": "hb", "name": "_a", "v": one}, "cif_container_set_value while an iterator is open")
+    add({"op": "itr_remove", "itr": "i1"}, None)
+    add({"op": "itr_remove", "itr": "i1"}, "cif_pktitr_remove_packet twice")
+    add({"op": "itr_update", "itr": "i1", "packet": [["_x", one]]}, "cif_pktitr_update_packet after remove")
+    add({"op": "itr_next", "itr": "i1"}, None)
+    add({"op": "itr_next", "itr": "i1"}, "cif_pktitr_next_packet after the last packet")
+    add({"op": "itr_next", "itr": "i1"}, "cif_pktitr_next_packet after CIF_FINISHED")
+    add({"op": "itr_update", "itr": "i1", "packet": [["_x", one]]}, "cif_pktitr_update_packet after CIF_FINISHED")
+    add({"op": "itr_abort", "itr": "i1"}, "cif_pktitr_abort")
+    add({"op": "create_loop", "cont": "hb", "category": "e", "names": ["_e1", "_e2"], "h": "le"}, None)
+    add({"op": "get_packets", "loop": "le", "itr": "i3"}, "cif_loop_get_packets, loop without packets")
+    add({"op": "write", "cif": "c", "bytes": 0}, "cif_write of a CIF holding a loop without packets")
+    add({"op": "write", "cif": "c", "version": 1, "bytes": 0}, "cif_write (CIF 1.1) of a CIF holding a list")
+    add({"op": "get_item_loop", "cont": "hb", "name": "_e1", "h": "le2"}, None)
+    add({"op": "loop_destroy", "loop": "le"}, None)
+    add({"op": "get_packets", "loop": "le2", "itr": "i4"}, "cif_loop_get_packets, stale loop handle")
+    add({"op": "loop_add_item", "loop": "le2", "name": "_e3", "v": one}, "cif_loop_add_item, stale loop handle")
+    add({"op": "loop_get_names", "loop": "le2"}, "cif_loop_get_names, stale loop handle")
+    add({"op": "loop_destroy", "loop": "le2"}, "cif_loop_destroy, stale loop handle")
+    add({"op": "loop_destroy", "loop": "ls"}, "cif_loop_destroy of the scalar loop")
+    add({"op": "packet_create", "p": "p1", "names": ["_ok", "bad name"]}, "cif_packet_create, invalid name")
+    add({"op": "packet_create", "p": "p1", "names": ["_ok"]}, None)
+    add({"op": "packet_op", "p": "p1", "f": "set", "name": "no underscore"}, "cif_packet_set_item, invalid name")
+    add({"op": "packet_op", "p": "p1", "f": "get", "name": "_nope"}, "cif_packet_get_item, no such item")
+    add({"op": "packet_op", "p": "p1", "f": "remove", "name": "_nope"}, "cif_packet_remove_item, no such item")
+    add({"op": "value_build", "v": "vl", "val": {"k": "list", "e": [one]}}, None)
+    add({"op": "value_build", "v": "vc", "val": {"k": "char", "t": "abc", "q": 1}}, None)
+    add({"op": "value_create", "v": "vt", "kind": 3}, None)
+    add({"op": "value_create", "v": "vn", "kind": 5}, None)
+    add({"op": "value_create", "v": "vbad", "kind": 77}, "cif_value_create, invalid kind")
+    add({"op": "value_op", "v": "vl", "f": "get_at", "index": 5}, "cif_value_get_element_at, index out of range")
+    add({"op": "value_op", "v": "vl", "f": "set_at", "index": 5, "arg": "vc"}, "cif_value_set_element_at, index out of range")
+    add({"op": "value_op", "v": "vl", "f": "insert_at", "index": 5, "arg": "vc"}, "cif_value_insert_element_at, index out of range")
+    add({"op": "value_op", "v": "vl", "f": "remove_at", "index": 5}, "cif_value_remove_element_at, index out of range")
+    add({"op": "value_op", "v": "vc", "f": "get_at", "index": 0}, "cif_value_get_element_at of a string")
+    add({"op": "value_op", "v": "vc", "f": "count"}, "cif_value_get_element_count of a string")
+    add({"op": "value_op", "v": "vc", "f": "get_keys"}, "cif_value_get_keys of a string")
+    add({"op": "value_op", "v": "vl", "f": "set_key", "key": "k", "arg": "vc"}, "cif_value_set_item_by_key of a list")
+    add({"op": "value_op", "v": "vt", "f": "get_key", "key": "nope"}, "cif_value_get_item_by_key, no such key")
+    add({"op": "value_op", "v": "vt", "f": "remove_key", "key": "nope"}, "cif_value_remove_item_by_key, no such key")
+    add({"op": "value_op", "v": "vt", "f": "set_key", "key": "a\ufffeb", "arg": "vc"}, "cif_value_set_item_by_key, invalid key")
+    add({"op": "value_op", "v": "vn", "f": "parse_numb", "text": "1.2.3"}, "cif_value_parse_numb, not a number")
+    add({"op": "value_op", "v": "vn", "f": "parse_numb", "text": "1.5(x)"}, "cif_value_parse_numb, malformed uncertainty")
+    add({"op": "value_op", "v": "vn", "f": "init_numb", "val": hx(1.5), "su": hx(-1.0), "scale": 1, "mlz": 0}, "cif_value_init_numb, negative uncertainty")
+    add({"op": "value_op", "v": "vn", "f": "init_numb", "val": hx(1.5), "su": hx(0.0), "scale": 1, "mlz": -3}, "cif_value_init_numb, negative max_leading_zeroes")
+    add({"op": "value_op", "v": "vn", "f": "autoinit_numb", "val": hx(1.5), "su": hx(0.1), "rule": 1}, "cif_value_autoinit_numb, su rule below 2")
+    # (not-a-number / infinite arguments are outside the documented domain of the numeric initialisers: cif.h says undefined)
+    add({"op": "value_op", "v": "vc", "f": "get_number"}, "cif_value_get_number of a non-numeric string")
+    add({"op": "value_op", "v": "vl", "f": "get_number"}, "cif_value_get_number of a list")
+    add({"op": "value_op", "v": "vl", "f": "set_quoted", "q": 1}, "cif_value_set_quoted of a list")
+    add({"op": "value_op", "v": "vl", "f": "get_text"}, "cif_value_get_text of a list")
+    add({"op": "value_op", "v": "vn", "f": "init", "kind": 77}, "cif_value_init, invalid kind")
+    add({"op": "analyze", "s": "abc", "limit": 0}, "cif_analyze_string, length limit 0")
+    add({"op": "normalize", "s": "\ud800x"}, "cif_normalize of an unpaired surrogate")
     return cmds, what
 
 
